@@ -99,9 +99,6 @@ Lemma existsb_names {A} (key : A -> str) (p : str -> bool) l :
   existsb (fun x => p (key x)) l = existsb p (map key l).
 Proof. induction l as [|x l IH]; [reflexivity|]. cbn [existsb map]. rewrite IH. reflexivity. Qed.
 
-Definition enum_names_unique (sc : schema) : bool :=
-  forallb (fun t => match t with TEnum _ _ vs _ => negb (has_dup (map sev_name vs)) | _ => true end) (s_types sc).
-
 Lemma tdef_refs_strip t : tdef_refs (strip_tdef t) = tdef_refs t.
 Proof.
   assert (Hsiv : forall l, map siv_refs (map strip_siv l) = map siv_refs l).
@@ -121,4 +118,324 @@ Qed.
 Lemma count_ops_schema_ops sc k : count_ops k (schema_ops sc) <= 1.
 Proof.
   unfold schema_ops, count_ops. destruct (s_query sc), (s_mutation sc), (s_subscription sc), k; cbn; lia.
+Qed.
+
+Definition members_unique_def (d : definition) : bool :=
+  negb (has_dup (map (fun f => n_val (fd_name f)) (ext_fields d)))
+  && negb (has_dup (map ty_name (ext_ifaces d)))
+  && negb (has_dup (map ty_name (ext_members d)))
+  && negb (has_dup (map (fun v => n_val (ev_name v)) (ext_values d)))
+  && negb (has_dup (map (fun f => n_val (iv_name f)) (ext_ifields d))).
+
+Lemma valid_fields_nodup sc fs : valid_fields sc fs = true -> has_dup (map sf_name fs) = false.
+Proof.
+  unfold valid_fields. intros H. apply andb_prop in H; destruct H as [H _]. apply andb_prop in H; destruct H as [_ H].
+  apply Bool.negb_true_iff in H. exact H.
+Qed.
+
+Lemma unique_members_of sc E t x :
+  valid_type sc t = true ->
+  match t with TEnum _ _ vs _ => negb (has_dup (map sev_name vs)) | _ => true end = true ->
+  def_of_tdef E t = Ok x -> members_unique_def x = true.
+Proof.
+  unfold valid_type, members_unique_def. intros Hv He Hx. apply andb_prop in Hv; destruct Hv as [_ Hv].
+  destruct t as [n d ds|n d is_ fs ds|n d fs ds|n d ms ds|n d vs ds|n d fs ds]; cbn [def_of_tdef] in Hx.
+  - inversion Hx; subst x. reflexivity.
+  - destruct (omap (fdef_of E) fs) as [fds| | |] eqn:Ho; cbn [obind] in Hx; try discriminate. inversion Hx; subst x.
+    cbn [ext_fields ext_ifaces ext_members ext_values ext_ifields map has_dup negb andb].
+    apply andb_prop in Hv; destruct Hv as [Hv _]. apply andb_prop in Hv; destruct Hv as [Hf Hi].
+    rewrite (fdefs_names E fs fds (omap_inv _ _ _ Ho)), (valid_fields_nodup sc fs Hf), ty_names.
+    rewrite Hi. reflexivity.
+  - destruct (omap (fdef_of E) fs) as [fds| | |] eqn:Ho; cbn [obind] in Hx; try discriminate. inversion Hx; subst x.
+    cbn [ext_fields ext_ifaces ext_members ext_values ext_ifields map has_dup negb andb].
+    rewrite (fdefs_names E fs fds (omap_inv _ _ _ Ho)), (valid_fields_nodup sc fs Hv). reflexivity.
+  - inversion Hx; subst x. cbn [ext_fields ext_ifaces ext_members ext_values ext_ifields map has_dup negb andb].
+    apply andb_prop in Hv; destruct Hv as [_ Hm]. rewrite ty_names, Hm. reflexivity.
+  - inversion Hx; subst x. cbn [ext_fields ext_ifaces ext_members ext_values ext_ifields map has_dup negb andb].
+    rewrite map_map. cbn [evdef_of ev_name mk_name n_val].
+    change (map (fun x : sevalue => sev_name x) vs) with (map sev_name vs). rewrite He. reflexivity.
+  - destruct (omap (ivdef_of E) fs) as [ivs| | |] eqn:Ho; cbn [obind] in Hx; try discriminate. inversion Hx; subst x.
+    cbn [ext_fields ext_ifaces ext_members ext_values ext_ifields map has_dup negb andb].
+    apply andb_prop in Hv; destruct Hv as [Hv _]. apply andb_prop in Hv; destruct Hv as [_ Hn].
+    rewrite (ivdefs_names E fs ivs (omap_inv _ _ _ Ho)), Hn. reflexivity.
+Qed.
+
+Lemma forallb_flat_map {A B} (p : B -> bool) (f : A -> list B) l :
+  forallb p (flat_map f l) = forallb (fun x => forallb p (f x)) l.
+Proof. induction l as [|x l IH]; [reflexivity|]. cbn [flat_map forallb]. rewrite forallb_app, IH. reflexivity. Qed.
+
+Section MemberRules.
+  Variables (sc : schema) (E Ed : env) (K : list (str * kind)).
+  Hypothesis HK : forall n, kind_in K n = skind sc n.
+
+  Definition iv_input (iv : input_value_def) : bool := tref_is_input K (tref_of (iv_type iv)).
+
+  Lemma tref_is_input_s t : tref_is_input K t = s_is_input sc t.
+  Proof. unfold tref_is_input, s_is_input. rewrite HK. reflexivity. Qed.
+
+  Lemma ivs_rules l ivs :
+    Forall2 (fun a iv => ivdef_of E a = Ok iv) l ivs ->
+    forallb (fun a => valid_name (siv_name a) && s_is_input sc (siv_type a)) l = true ->
+    (forall a, In a l -> default_rt E Ed a) ->
+    forallb iv_input ivs = true /\ forallb (coercible Ed) ivs = true.
+  Proof.
+    induction 1 as [|a iv l ivs Hiv _ IH]; intros Hv Hd; [split; reflexivity|].
+    cbn [forallb] in Hv |- *. apply andb_prop in Hv; destruct Hv as [Ha Hl].
+    apply andb_prop in Ha; destruct Ha as [_ Ha].
+    destruct (IH Hl (fun b Hb => Hd b (or_intror Hb))) as [I1 I2]. rewrite I1, I2.
+    destruct (ivdef_of_facts E a iv Hiv) as (_ & Ht & Hdef).
+    unfold iv_input, coercible. rewrite Ht, tref_is_input_s, Ha. split; [reflexivity|].
+    pose proof (Hd a (or_introl eq_refl)) as Hrt. unfold default_rt in Hrt.
+    destruct (siv_default a) as [v|].
+    - destruct Hdef as (n & Hn & ->). rewrite (Hrt v n eq_refl Hn). reflexivity.
+    - rewrite Hdef. reflexivity.
+  Qed.
+
+  Lemma valid_args_ivs args :
+    valid_args sc args = true -> forallb (fun a => valid_name (siv_name a) && s_is_input sc (siv_type a)) args = true.
+  Proof. unfold valid_args. intros H. apply andb_prop in H; apply H. Qed.
+
+  Lemma fds_rules fs fds :
+    Forall2 (fun f fd => fdef_of E f = Ok fd) fs fds ->
+    valid_fields sc fs = true ->
+    (forall f, In f fs -> forall a, In a (sf_args f) -> default_rt E Ed a) ->
+    forallb iv_input (flat_map fd_args fds) = true /\ forallb (coercible Ed) (flat_map fd_args fds) = true
+    /\ forallb (fun f => dep_ok (fd_dirs f)) fds = true.
+  Proof.
+    intros F Hv Hd. unfold valid_fields in Hv. apply andb_prop in Hv; destruct Hv as [_ Hv].
+    induction F as [|f fd fs fds Hfd _ IH]; [repeat split; reflexivity|].
+    cbn [forallb] in Hv. apply andb_prop in Hv; destruct Hv as [Hf Hl]. apply andb_prop in Hf; destruct Hf as [_ Hargs].
+    destruct (IH Hl (fun g Hg => Hd g (or_intror Hg))) as (I1 & I2 & I3).
+    destruct (fdef_of_facts E f fd Hfd) as (_ & Fa & Hdirs).
+    destruct (ivs_rules _ _ Fa (valid_args_ivs _ Hargs) (Hd f (or_introl eq_refl))) as [J1 J2].
+    cbn [flat_map forallb]. rewrite !forallb_app, I1, I2, I3, J1, J2. repeat split.
+    unfold dep_ok. rewrite Hdirs, deprecation_roundtrip. reflexivity.
+  Qed.
+
+  Lemma tdef_rules t x :
+    valid_type sc t = true -> def_of_tdef E t = Ok x ->
+    (forall a, In a (tdef_ivalues t) -> default_rt E Ed a) ->
+    forallb iv_input (def_ivalues x) = true /\ forallb (coercible Ed) (def_ivalues x) = true /\ def_deps_ok x = true.
+  Proof.
+    unfold valid_type. intros Hv Hx Hd. apply andb_prop in Hv; destruct Hv as [_ Hv].
+    destruct t as [n d ds|n d is_ fs ds|n d fs ds|n d ms ds|n d vs ds|n d fs ds]; cbn [def_of_tdef tdef_ivalues] in Hx, Hd.
+    - inversion Hx; subst x. repeat split; reflexivity.
+    - destruct (omap (fdef_of E) fs) as [fds| | |] eqn:Ho; cbn [obind] in Hx; try discriminate. inversion Hx; subst x.
+      apply andb_prop in Hv; destruct Hv as [Hv _]. apply andb_prop in Hv; destruct Hv as [Hf _].
+      cbn [def_ivalues def_deps_ok]. apply (fds_rules fs fds (omap_inv _ _ _ Ho) Hf).
+      intros f Hf' a Ha. apply Hd. apply in_flat_map. exists f; split; assumption.
+    - destruct (omap (fdef_of E) fs) as [fds| | |] eqn:Ho; cbn [obind] in Hx; try discriminate. inversion Hx; subst x.
+      cbn [def_ivalues def_deps_ok]. apply (fds_rules fs fds (omap_inv _ _ _ Ho) Hv).
+      intros f Hf' a Ha. apply Hd. apply in_flat_map. exists f; split; assumption.
+    - inversion Hx; subst x. repeat split; reflexivity.
+    - inversion Hx; subst x. cbn [def_ivalues def_deps_ok forallb]. repeat split.
+      rewrite forallb_map. apply forallb_forall. intros v _. unfold dep_ok, evdef_of. cbn [ev_dirs].
+      rewrite deprecation_roundtrip. reflexivity.
+    - destruct (omap (ivdef_of E) fs) as [ivs| | |] eqn:Ho; cbn [obind] in Hx; try discriminate. inversion Hx; subst x.
+      cbn [def_ivalues def_deps_ok]. apply andb_prop in Hv; destruct Hv as [_ Hv].
+      destruct (ivs_rules fs ivs (omap_inv _ _ _ Ho) Hv Hd) as [J1 J2]. repeat split; assumption.
+  Qed.
+
+  Lemma ddef_rules dd x :
+    valid_args sc (dd_args dd) = true -> def_of_ddef E dd = Ok x ->
+    (forall a, In a (dd_args dd) -> default_rt E Ed a) ->
+    forallb iv_input (def_ivalues x) = true /\ forallb (coercible Ed) (def_ivalues x) = true /\ def_deps_ok x = true.
+  Proof.
+    intros Hv Hx Hd. destruct (def_of_ddef_shape E dd x Hx) as (args & -> & Ho).
+    cbn [def_ivalues def_deps_ok].
+    destruct (ivs_rules _ _ (omap_inv _ _ _ Ho) (valid_args_ivs _ Hv) Hd) as [J1 J2]. repeat split; assumption.
+  Qed.
+End MemberRules.
+
+Theorem ast_rules_ok sc d :
+  schema_okb sc = true -> ast_of_schema sc = Ok d ->
+  (forall a, In a (schema_ivalues sc) -> default_rt (env_of_schema [] sc) (declared_env d) a) ->
+  sdl_rules_ok d.
+Proof.
+  intros Hok Hast Hrt.
+  pose proof (declared_of_ast_struct sc d Hok Hast Hrt) as Hda.
+  unfold schema_okb in Hok.
+  apply andb_prop in Hok; destruct Hok as [Hok Henum].
+  apply andb_prop in Hok; destruct Hok as [Hok Hrefs].
+  apply andb_prop in Hok; destruct Hok as [Hok Hnoover].
+  apply andb_prop in Hok; destruct Hok as [Hok Hnodef].
+  apply andb_prop in Hok; destruct Hok as [Hok Hdupd].
+  apply andb_prop in Hok; destruct Hok as [Hok Hdupt].
+  apply andb_prop in Hok; destruct Hok as [Hok Hdsdl].
+  apply andb_prop in Hok; destruct Hok as [Hvalid Htsdl].
+  apply Bool.negb_true_iff in Hdupd, Hdupt.
+  destruct (ast_of_schema_inv sc d Hast) as (dds & tds & Fd & Ft & ->).
+  set (Ep := env_of_schema [] sc) in *.
+  set (st := sort_by tdef_name (s_types sc)) in *. set (sd := sort_by dd_name (s_ddefs sc)) in *.
+  assert (Pst : Permutation st (s_types sc)) by apply sort_by_perm.
+  assert (Psd : Permutation sd (s_ddefs sc)) by apply sort_by_perm.
+  assert (Hnd : NoDup (map tdef_name st)).
+  { apply has_dup_NoDup. eapply has_dup_perm; [apply Permutation_map; apply Permutation_sym; exact Pst|exact Hdupt]. }
+  assert (Lst : forall m, find_type m st = find_type m (s_types sc)) by (intros m; apply find_type_perm; assumption).
+  assert (HS : Forall (fun x => exists dirs ots, x = DSchema false dirs ots None) (schema_defs sc)).
+  { unfold schema_defs. destruct (schema_def_needed sc); repeat constructor. eexists _, _. reflexivity. }
+  assert (Hdds : Forall (fun x => is_directive_def x = true) dds).
+  { eapply Forall2_right; [|exact Fd]. intros a b Hab. cbn beta in Hab.
+    destruct (def_of_ddef_shape _ _ _ Hab) as (args & -> & _). reflexivity. }
+  assert (Htds : Forall (fun x => typedef_name x <> None /\ typeext_name x = None
+                                   /\ is_schema_def x = false /\ is_directive_def x = false) tds).
+  { eapply Forall2_right; [|exact Ft]. intros a b Hab. cbn beta in Hab.
+    destruct (def_of_tdef_shape _ _ _ Hab) as (H1 & H2 & H3 & H4). repeat split; try assumption. congruence. }
+  set (ds := schema_defs sc ++ dds ++ tds) in *.
+  assert (X1 : declared_defs (Doc ds None) = tds) by (apply (shape_declared_defs _ _ _ HS Hdds Htds)).
+  assert (X3 : schema_def_of ds = hd_error (schema_defs sc)) by (apply (shape_schema_def _ _ _ HS Hdds Htds)).
+  assert (X4 : schema_exts ds = []) by (apply (shape_schema_exts _ _ _ HS Hdds Htds)).
+  assert (X5 : Forall (fun x => typeext_name x = None) ds) by (apply (shape_no_typeext _ _ _ HS Hdds Htds)).
+  set (Ed := declared_env (Doc ds None)) in *.
+  set (D := declared (Doc ds None)) in *.
+  destruct Hda as (Hts & HD & Rq & Rm & Rs & Rd). fold st in Hts. fold sd in HD.
+  (* kinds *)
+  assert (HKeq : declared_kinds (Doc ds None) = map (fun t => (tdef_name t, tdef_kind t)) st).
+  { unfold declared_kinds. rewrite X1. apply (kinds_of_tds Ep); exact Ft. }
+  assert (HK : forall n, kind_in (declared_kinds (Doc ds None)) n = skind sc n).
+  { intros n. rewrite HKeq. apply kind_in_skind. exact Lst. }
+  assert (HK0 : forall n, kind_in (map (fun t => (tdef_name t, tdef_kind t)) (s_types sc)) n = skind sc n).
+  { intros n. apply kind_in_skind. reflexivity. }
+  (* validity facts of sc *)
+  pose proof Hvalid as Hvalid0.
+  unfold validate_schema in Hvalid.
+  apply andb_prop in Hvalid; destruct Hvalid as [Hvalid Hvdd].
+  apply andb_prop in Hvalid; destruct Hvalid as [Hvalid Hvty].
+  apply andb_prop in Hvalid; destruct Hvalid as [Hvalid Hvs].
+  apply andb_prop in Hvalid; destruct Hvalid as [Hvalid Hvm].
+  apply andb_prop in Hvalid; destruct Hvalid as [_ Hvq].
+  assert (Hin_st : forall t, In t st -> In t (s_types sc)) by (intros t Ht; eapply Permutation_in; eassumption).
+  assert (Hin_sd : forall t, In t sd -> In t (s_ddefs sc)) by (intros t Ht; eapply Permutation_in; eassumption).
+  (* all operation types of the document *)
+  assert (Hops : all_ops ds = if schema_def_needed sc then schema_ops sc else []).
+  { unfold all_ops. rewrite X3, X4, app_nil_r. unfold schema_defs.
+    destruct (schema_def_needed sc); cbn [hd_error flat_map]; rewrite ?app_nil_r; reflexivity. }
+  unfold sdl_rules_ok, sdl_rules_okb.
+  (* 1 *)
+  assert (R1 : r_unique_types (Doc ds None) = true).
+  { unfold r_unique_types. cbn [doc_defs]. unfold ds. rewrite !flat_map_app.
+    rewrite (flat_map_nil _ (schema_defs sc)), (flat_map_nil _ dds); cbn [app].
+    - rewrite (flat_map_single (fun t x => def_of_tdef Ep t = Ok x) _ tdef_name st tds); [|  |exact Ft].
+      + apply Bool.negb_true_iff. apply has_dup_NoDup. exact Hnd.
+      + intros t x Hx. destruct (def_of_tdef_shape Ep t x Hx) as (-> & _). reflexivity.
+    - eapply Forall_impl; [|exact Hdds]. intros x Hx. destruct x; try discriminate. reflexivity.
+    - eapply Forall_impl; [|exact HS]. intros x (dirs & ots & ->). reflexivity. }
+  (* 2 *)
+  assert (R2 : r_unique_directives (Doc ds None) = true).
+  { unfold r_unique_directives. cbn [doc_defs]. unfold ds. rewrite !flat_map_app.
+    rewrite (flat_map_nil _ (schema_defs sc)), (flat_map_nil _ tds); cbn [app]; rewrite ?app_nil_r.
+    - rewrite (flat_map_single (fun dd x => def_of_ddef Ep dd = Ok x) _ dd_name sd dds); [| |exact Fd].
+      + apply Bool.negb_true_iff. eapply has_dup_perm; [apply Permutation_map; apply Permutation_sym; exact Psd|exact Hdupd].
+      + intros dd x Hx. destruct (def_of_ddef_shape Ep dd x Hx) as (args & -> & _). reflexivity.
+    - eapply Forall_impl; [|exact Htds]. intros x (_ & _ & _ & Hx). destruct x; try discriminate; reflexivity.
+    - eapply Forall_impl; [|exact HS]. intros x (dirs & ots & ->). reflexivity. }
+  (* 3 *)
+  assert (R3 : r_one_schema (Doc ds None) = true).
+  { unfold r_one_schema. cbn [doc_defs]. unfold ds. rewrite !filter_app.
+    rewrite (filter_none _ dds), (filter_none _ tds); rewrite ?app_nil_r.
+    - unfold schema_defs. destruct (schema_def_needed sc); reflexivity.
+    - eapply Forall_impl; [|exact Htds]. intros x (_ & _ & Hx & _). destruct x; try discriminate; reflexivity.
+    - eapply Forall_impl; [|exact Hdds]. intros x Hx. destruct x; try discriminate. reflexivity. }
+  (* 4 *)
+  assert (R4 : r_ext_targets (Doc ds None) = true).
+  { unfold r_ext_targets. cbn [doc_defs]. apply forallb_forall. intros x Hx.
+    rewrite Forall_forall in X5. rewrite (X5 x Hx). reflexivity. }
+  (* 5 *)
+  assert (R5 : r_unique_members (Doc ds None) = true).
+  { unfold r_unique_members. rewrite X1. change (forallb members_unique_def tds = true).
+    eapply Forall2_forallb_right; [|exact Ft]. intros t x Hin Hx. cbn beta in Hx.
+    apply (unique_members_of sc Ep t x); [| |exact Hx].
+    - rewrite forallb_forall in Hvty. apply Hvty. apply Hin_st; exact Hin.
+    - unfold enum_names_unique in Henum. rewrite forallb_forall in Henum. apply Henum. apply Hin_st; exact Hin. }
+  (* 6 *)
+  assert (R6 : r_refs (Doc ds None) = true).
+  { unfold r_refs. fold D. unfold refs_known in Hrefs |- *.
+    set (g := fun t => forallb (known (declared_kinds (Doc ds None))) (tdef_refs t)).
+    assert (Hg : forall t, g (strip_tdef t) = g t) by (intros t; unfold g; rewrite tdef_refs_strip; reflexivity).
+    rewrite (forallb_strip_eq g _ _ Hg Hts), (forallb_perm g _ _ Pst).
+    rewrite <- Hrefs. apply forallb_ext. intros t. unfold g. apply forallb_ext. intros n.
+    unfold known. rewrite HK, HK0. reflexivity. }
+  (* the directive definitions of the document *)
+  assert (Hdir_defs : dir_defs ds = dds).
+  { unfold dir_defs, ds. rewrite !filter_app.
+    rewrite (filter_none _ (schema_defs sc)), (filter_none _ tds), (filter_all _ dds), app_nil_r; [reflexivity| | |].
+    - eapply Forall_impl; [|exact Hdds]. intros x Hx. destruct x; try discriminate. reflexivity.
+    - eapply Forall_impl; [|exact Htds]. intros x (_ & _ & _ & Hx). destruct x; try discriminate; reflexivity.
+    - eapply Forall_impl; [|exact HS]. intros x (dirs & ots & ->). reflexivity. }
+  assert (Hmember_t : Forall (fun x => forallb (iv_input (declared_kinds (Doc ds None))) (def_ivalues x) = true
+                                       /\ forallb (coercible Ed) (def_ivalues x) = true /\ def_deps_ok x = true) tds).
+  { assert (F : Forall2 (fun t x => In t st /\ def_of_tdef Ep t = Ok x) st tds).
+    { eapply Forall2_impl_in; [|exact Ft]. intros a b Hin Hab. split; assumption. }
+    eapply Forall2_right; [|exact F]. intros t x [Hin Hx].
+    apply (tdef_rules sc Ep Ed _ HK t x); [|exact Hx|].
+    - rewrite forallb_forall in Hvty. apply Hvty. apply Hin_st; exact Hin.
+    - intros a Ha. apply Hrt. unfold schema_ivalues. apply in_or_app; left. apply in_flat_map.
+      exists t; split; [apply Hin_st; exact Hin|exact Ha]. }
+  assert (Hmember_d : Forall (fun x => forallb (iv_input (declared_kinds (Doc ds None))) (def_ivalues x) = true
+                                       /\ forallb (coercible Ed) (def_ivalues x) = true /\ def_deps_ok x = true) dds).
+  { assert (F : Forall2 (fun t x => In t sd /\ def_of_ddef Ep t = Ok x) sd dds).
+    { eapply Forall2_impl_in; [|exact Fd]. intros a b Hin Hab. split; assumption. }
+    eapply Forall2_right; [|exact F]. intros dd x [Hin Hx].
+    apply (ddef_rules sc Ep Ed _ HK dd x); [|exact Hx|].
+    - rewrite forallb_forall in Hvdd. pose proof (Hvdd dd (Hin_sd dd Hin)) as H. apply andb_prop in H; apply H.
+    - intros a Ha. apply Hrt. unfold schema_ivalues. apply in_or_app; right. apply in_flat_map.
+      exists dd; split; [apply Hin_sd; exact Hin|exact Ha]. }
+  (* 7 *)
+  assert (R7 : r_input_types (Doc ds None) = true).
+  { unfold r_input_types. rewrite X1. cbn [doc_defs]. rewrite Hdir_defs. apply forallb_forall. intros x Hx.
+    apply in_app_or in Hx. rewrite Forall_forall in Hmember_t, Hmember_d.
+    destruct Hx as [Hx|Hx]; [apply (Hmember_t x Hx)|apply (Hmember_d x Hx)]. }
+  (* 8 *)
+  assert (R8 : r_defaults (Doc ds None) = true).
+  { unfold r_defaults. rewrite X1. cbn [doc_defs]. rewrite Hdir_defs. fold Ed. apply forallb_forall. intros x Hx.
+    apply in_app_or in Hx. rewrite Forall_forall in Hmember_t, Hmember_d.
+    destruct Hx as [Hx|Hx]; [destruct (Hmember_t x Hx) as (_ & H1 & H2)|destruct (Hmember_d x Hx) as (_ & H1 & H2)];
+      rewrite H1, H2; reflexivity. }
+  (* 9 *)
+  assert (R9 : r_ops_once (Doc ds None) = true).
+  { unfold r_ops_once. cbn [doc_defs]. rewrite Hops. apply forallb_forall. intros k _. apply Nat.leb_le.
+    destruct (schema_def_needed sc); [apply count_ops_schema_ops|cbn; lia]. }
+  (* 10 *)
+  assert (R10 : r_ops_known (Doc ds None) = true).
+  { unfold r_ops_known. cbn [doc_defs]. rewrite Hops. destruct (schema_def_needed sc); [|reflexivity].
+    assert (Hobj : forall r n, valid_root sc r = true -> r = Some n -> known (declared_kinds (Doc ds None)) n = true).
+    { intros r n Hv ->. cbn [valid_root] in Hv. unfold s_is_object in Hv. unfold known. rewrite HK.
+      destruct (skind sc n); [reflexivity|discriminate]. }
+    unfold schema_ops. rewrite !forallb_app.
+    destruct (s_query sc) as [q|] eqn:Eq, (s_mutation sc) as [m|] eqn:Em, (s_subscription sc) as [u|] eqn:Eu;
+      cbn [forallb ot_type ty_name tref_of named_ty tref_name mk_name n_val andb];
+      rewrite ?(Hobj _ q Hvq eq_refl), ?(Hobj _ m Hvm eq_refl), ?(Hobj _ u Hvs eq_refl); reflexivity. }
+  (* 11 *)
+  assert (R11 : r_default_roots (Doc ds None) = true).
+  { unfold r_default_roots. cbn [doc_defs]. rewrite X3, Hops. unfold schema_defs.
+    destruct (schema_def_needed sc); cbn [hd_error]; [reflexivity|].
+    cbn [forallb count_ops filter length Nat.eqb].
+    repeat match goal with |- context [default_root ?a ?b] => destruct (default_root a b) end; reflexivity. }
+  (* 12 *)
+  assert (R12 : r_no_override (Doc ds None) = true).
+  { unfold r_no_override. fold D. unfold overrides_specified_directive in Hnoover |- *.
+    rewrite (existsb_names dd_name (fun n => mem_str n specified_directive_names)) in Hnoover |- *.
+    rewrite <- (strip_ddef_names (s_ddefs D)), HD, strip_ddef_names.
+    rewrite (existsb_perm _ _ _ (Permutation_map dd_name Psd)). exact Hnoover. }
+  (* 13 *)
+  assert (R13 : r_valid (Doc ds None) = true).
+  { unfold r_valid. fold D. rewrite (validate_declares_again sc D Hdupt); [exact Hvalid0|].
+    repeat split; assumption. }
+  rewrite R1, R2, R3, R4, R5, R6, R7, R8, R9, R10, R11, R12, R13. reflexivity.
+Qed.
+
+(* C12_members_roundtrip, guarded by the complements of the open findings:
+   [default_rt] (custom-scalar-numeric-string-default of C12) and
+   [defaults_stable] (input-default-self-cycle, default-vs-extension of C11) *)
+Theorem members_roundtrip_guarded sc d :
+  schema_okb sc = true -> ast_of_schema sc = Ok d ->
+  (forall a, In a (schema_ivalues sc) -> default_rt (env_of_schema [] sc) (declared_env d) a) ->
+  defaults_stable d ->
+  sdl_rules_ok d
+  /\ build_model (BOpts true []) d = Ok (declared d)
+  /\ roundtrip_equiv (declared d) sc = true
+  /\ members_roundtrip sc = true.
+Proof.
+  intros Hok Hast Hrt Hst. pose proof (ast_rules_ok sc d Hok Hast Hrt) as Hr.
+  split; [exact Hr|]. apply members_roundtrip_doc; assumption.
 Qed.
